@@ -586,7 +586,7 @@ func (p *Parser) parseSelectResults() []ast.SelectItem {
 			break
 		}
 		p.nextToken()
-		if p.Token.Kind == token.TokenEOF || p.Token.Kind == "FROM" {
+		if p.Token.Kind == token.TokenEOF || p.Token.Kind == ";" || p.Token.Kind == "FROM" {
 			break
 		}
 		results = append(results, p.parseSelectItem())
